@@ -365,13 +365,26 @@ pub fn gen_sheet_book(rng: &mut Rng) -> Spreadsheet {
     book
 }
 
-/// Workbooks for the package bridge (`c02 pkgbridge`): 1..6 PLAIN sheets (nothing that adds parts: no comments,
-/// drawings, tables, printer settings), with or without any string (so that the shared-string part, its Override and
-/// its workbook relationship are present or absent), hidden sheets, a sheet removed and others added afterwards,
-/// defined names, and per sheet no hyperlink / only internal ones (no relationships part) / external ones.
+/// Workbooks for the package bridge (`c02 pkgbridge`): 1..6 sheets inside the package model (nothing that adds parts
+/// but COMMENTS: no drawings, tables, printer settings), with or without any string (so that the shared-string part,
+/// its Override and its workbook relationship are present or absent), hidden sheets, a sheet removed and others added
+/// afterwards, defined names, and per sheet no hyperlink / only internal ones (no relationships part) / external ones.
+/// Comments (each adds a VML part, a comments part, two sheet relationships after the hyperlink ones, a
+/// `legacyDrawing` child): on no sheet (2 of 5), on a random subset, on every sheet but the first, on every sheet; one
+/// or several per sheet; also on a sheet that is removed afterwards (its numbers must be free again).
 pub fn gen_pkg_book(rng: &mut Rng) -> Spreadsheet {
-    use umya_spreadsheet::structs::{Hyperlink, SheetStateValues};
+    use umya_spreadsheet::structs::{Comment, Hyperlink, SheetStateValues};
     let mut book = umya_spreadsheet::new_file_empty_worksheet();
+    let cmt_mode = rng.below(5);
+    let add_comments = |ws: &mut umya_spreadsheet::structs::Worksheet, rng: &mut Rng| {
+        for _ in 0..rng.range(1, 3) {
+            let mut c = Comment::default();
+            c.new_comment((rng.range(1, 6) as u32, rng.range(1, 9) as u32));
+            c.set_author(*rng.pick(&["Ann", "Bob", "a&b"]));
+            c.set_text_string(wb::rand_text(rng, wb::TEXT_ALPHABET, 1, 6));
+            ws.add_comments(c);
+        }
+    };
     let n_sheets = rng.range(1, 6) as usize;
     let mut names: Vec<String> = vec![];
     for _ in 0..n_sheets {
@@ -383,6 +396,9 @@ pub fn gen_pkg_book(rng: &mut Rng) -> Spreadsheet {
         // remove a sheet (any position, after using it) and add a new one: part numbers and ids follow the positions
         let victim = rng.below(names.len() as u64) as usize;
         book.get_sheet_mut(&victim).unwrap().get_cell_mut((1u32, 1u32)).set_value_string("gone");
+        if cmt_mode >= 2 && rng.chance(1, 2) {
+            add_comments(book.get_sheet_mut(&victim).unwrap(), rng);
+        }
         book.remove_sheet(victim).unwrap();
         names.remove(victim);
         for _ in 0..rng.range(1, 2) {
@@ -426,6 +442,15 @@ pub fn gen_pkg_book(rng: &mut Rng) -> Spreadsheet {
                 }
             }
         }
+        let with_comments = match cmt_mode {
+            0 | 1 => false,
+            2 => rng.chance(1, 2),
+            3 => si > 0,
+            _ => true,
+        };
+        if with_comments {
+            add_comments(ws, rng);
+        }
         if rng.chance(1, 3) {
             ws.set_state(if rng.chance(1, 2) { SheetStateValues::Hidden } else { SheetStateValues::VeryHidden });
         }
@@ -445,17 +470,20 @@ pub fn gen_pkg_book(rng: &mut Rng) -> Spreadsheet {
     book
 }
 
-/// the in-memory workbook for `c02 pkgbridge`: per sheet whether it is plain (nothing that adds parts) and its
-/// hyperlinks; whether the workbook is plain (no macros, no custom properties); the cells as `model=`
+/// the in-memory workbook for `c02 pkgbridge`: per sheet whether it is plain (nothing BUT comments adds parts), whether
+/// it has comments (`cmt=`) and its hyperlinks; whether the workbook is plain (no macros, no custom properties); the
+/// cells as `model=`
 fn pkg_dump(book: &Spreadsheet) -> String {
     use umya_spreadsheet::helper::coordinate::coordinate_from_index;
     let n = book.get_sheet_count();
     let mut plain = vec![];
+    let mut cmt = vec![];
     let mut links = vec![];
     for i in 0..n {
         let ws = book.get_sheet(&i).unwrap();
-        let p = !ws.has_comments() && !ws.has_drawing_object() && ws.get_tables().is_empty() && ws.get_page_setup().get_object_data().is_none() && ws.get_ole_objects().get_ole_object().is_empty();
+        let p = !ws.has_drawing_object() && ws.get_tables().is_empty() && ws.get_page_setup().get_object_data().is_none() && ws.get_ole_objects().get_ole_object().is_empty();
         plain.push(if p { "1" } else { "0" });
+        cmt.push(if ws.has_comments() { "1" } else { "0" });
         let mut ls = vec![];
         for c in ws.get_cell_collection_sorted() {
             if let Some(h) = c.get_hyperlink() {
@@ -465,7 +493,7 @@ fn pkg_dump(book: &Spreadsheet) -> String {
         links.push(if ls.is_empty() { "~".to_string() } else { ls.join(",") });
     }
     let wbplain = !book.get_has_macros() && book.get_properties().get_custom_properties().get_custom_document_property_list().is_empty();
-    format!("plain={} wbplain={} links={} model={}", plain.join("|"), if wbplain { 1 } else { 0 }, links.join("|"), model_dump(book))
+    format!("plain={} wbplain={} links={} model={} cmt={}", plain.join("|"), if wbplain { 1 } else { 0 }, links.join("|"), model_dump(book), cmt.join("|"))
 }
 
 /// the in-memory workbook for `c02 sheetbridge`: per sheet the row table, merged ranges and hyperlinks; the sheet
@@ -641,7 +669,17 @@ pub fn run_case(out: &mut Out, header: &str) {
             out.count("pkgbridge");
             out.count(&format!("pkgbridge.sheets.{}", book.get_sheet_count()));
             let pf = d.split(' ').next().unwrap_or("").trim_start_matches("plain=").to_string();
-            out.count(if pf.split('|').all(|x| x == "1") && d.contains(" wbplain=1 ") { "pkgbridge.plain" } else { "pkgbridge.not-plain" });
+            let cf = d.rsplit(' ').next().unwrap_or("").trim_start_matches("cmt=").to_string();
+            let inside = pf.split('|').all(|x| x == "1") && d.contains(" wbplain=1 ");
+            let n_cmt = cf.split('|').filter(|x| *x == "1").count();
+            out.count(if !inside { "pkgbridge.not-plain" } else if n_cmt > 0 { "pkgbridge.with-comments" } else { "pkgbridge.plain" });
+            out.count(if !inside { "workbook.outside-model" } else if n_cmt > 0 { "workbook.with-comments" } else { "workbook.plain" });
+            if inside && n_cmt > 0 {
+                out.count(&format!("pkgbridge.sheets-with-comments.{}", n_cmt));
+                if !cf.starts_with('1') { out.count("pkgbridge.comments.first-sheet-without"); }
+                out.count_n("pkgbridge.vml-parts", parts.iter().filter(|(n, _)| n.starts_with("xl/drawings/vmlDrawing")).count() as u64);
+                out.count_n("pkgbridge.comments-parts", parts.iter().filter(|(n, _)| n.starts_with("xl/comments")).count() as u64);
+            }
             out.count(if parts.iter().any(|(n, _)| n == "xl/sharedStrings.xml") { "pkgbridge.sst.present" } else { "pkgbridge.sst.absent" });
             out.count_n("pkgbridge.sheet-rels-parts", parts.iter().filter(|(n, _)| n.starts_with("xl/worksheets/_rels/")).count() as u64);
             for i in 0..book.get_sheet_count() {
@@ -694,7 +732,7 @@ pub fn gen(tier: Tier, seed: u64) -> Vec<String> {
     for i in 0..n {
         v.push(format!("c02 reset sgen {} {}", rng.next() % 1_000_000_007, if i % 4 == 3 { "light" } else { "std" }));
     }
-    // workbooks for the package bridge (plain sheets, 1..6)
+    // workbooks for the package bridge (1..6 sheets, plain or with comments)
     let n = if tier == Tier::Thorough { 600 } else { 80 };
     for i in 0..n {
         v.push(format!("c02 reset pgen {} {}", rng.next() % 1_000_000_007, if i % 4 == 3 { "light" } else { "std" }));
